@@ -166,6 +166,19 @@ def run(ctx, recs):
             pl = pal[(h(r["v"], ctx.seed) + len(kind)) % len(pal)]
             jobs.append({"rec": r, "pl": pl.to_json(), "seed": ctx.seed * 1000 + k * 3 + len(kind),
                          "kind": kind, "tid": len(jobs)})
+    # facet planes through the origin (plane offset exactly 0, where a sign convention on the offset has nothing to hold on to):
+    # the polytope translated so that one of its vertices is the origin, unrotated and rotated by the rational quaternion of rot9
+    from .placement import Placement as _Pl
+    for k, r in enumerate(chosen[: (40 if quick else 400)]):
+        v0 = r["v"][(k + ctx.seed) % len(r["v"])]
+        for kind in ("merge", "sort"):
+            pls = [_Pl(t=(-v0[0], -v0[1], -v0[2]), name="vertex_at_origin")]
+            if kind == "merge":
+                rot = _Pl(q=(1, 2, 2, 0), name="rot9_only")
+                w = rot.rot(v0)
+                pls.append(_Pl(q=(1, 2, 2, 0), t=(-w[0], -w[1], -w[2]), name="rot9_vertex_at_origin"))
+            for pl in pls:
+                jobs.append({"rec": r, "pl": pl.to_json(), "seed": ctx.seed * 1000 + 13 * k + len(kind), "kind": kind, "tid": len(jobs)})
     # nearly flat ridges: the cube with one corner pushed out along the diagonal has nine facets for EVERY positive push; the
     # recorded structure of the object with a push of 1e-3 .. 1e-8 of the edge must be that of the lattice member of the family
     from . import convex_driver as cd
